@@ -1,6 +1,6 @@
-module verif
+module vg
 
-go 1.22
+go 1.19
 
 require (
 	go.uber.org/cff v0.1.0
@@ -8,7 +8,3 @@ require (
 )
 
 replace go.uber.org/cff => /repo
-
-require vg v0.0.0
-
-replace vg => ./g
